@@ -267,7 +267,15 @@ func c15Worlds() []c15World {
 		early("early-answer-web-corrupt-gzip", wire.GRPCWeb, "json", "gzip", flip(20)),
 	}
 	w5.probes = []c15Req{f1, f2, f3}
-	return []c15World{w1, w2, w3, w4, w5}
+	// world 6: the same target with request compression: a GET issued toward the backend
+	// carries its (compressed) message in the URL
+	w6 := c15World{name: "target=Connect/proto/gzip (GET issued with a compressed message)", cfg: world.Config{Protocols: []vanguard.Protocol{vanguard.ProtocolConnect}, Codecs: []string{"proto"}, Compression: []string{"gzip"}, MaxMsg: 8000}}
+	restGet := c15Req{name: "rest-get-declaring-gzip", form: wire.REST, close: true, respond: echo(`{"name":"g2"}`), spec: func() *drive.ReqSpec {
+		return &drive.ReqSpec{Method: "GET", Target: "/v1/pure/abc?num=3", Header: http.Header{"Content-Encoding": {"gzip"}, "Accept-Encoding": {"gzip"}}, ContentLength: -1, NoBody: true}
+	}}
+	w6.history = []c15Req{f3, restGet, f1, mk("cget-json-plain", wire.ConnectGet, "Pure", "json", "", echo(`{"name":"g4"}`), nil, small)}
+	w6.probes = []c15Req{f1, f3, f2}
+	return []c15World{w1, w2, w3, w4, w5, w6}
 }
 
 type protoMessage = proto.Message
